@@ -10,6 +10,23 @@ class AnchorLost(Exception):
     pass
 
 
+def reuse(cx, fn, old, new, only=None):
+    """evaluate rule function `fn` of another property under this one: its obligations are relabelled old -> new
+    (only those whose key contains `only`, when given; the others are dropped)"""
+    n = len(cx.obs)
+    fn(cx)
+    kept = []
+    for o in cx.obs[n:]:
+        if only is not None and not any(x in o.key for x in ([only] if isinstance(only, str) else only)):
+            continue
+        if o.rule == old:
+            o.rule = new
+        if o.key.startswith(old + "/"):
+            o.key = new + o.key[len(old):]
+        kept.append(o)
+    cx.obs[n:] = kept
+
+
 def short(s, n=160):
     s = str(s)
     return s if len(s) <= n else s[: n - 1] + "…"
